@@ -90,7 +90,7 @@ class StubsBase:
         b["max"] = Stub(self.b_max, "max")
         b["abs"] = Stub(self.b_abs, "abs")
         b["range"] = Stub(self.b_range, "range")
-        b["enumerate"] = Stub(lambda ctx, it, start=0: [(i + start, x) for i, x in enumerate(self.interp.iterate(it, ctx))], "enumerate")
+        b["enumerate"] = Stub(self.b_enumerate, "enumerate")
         b["sorted"] = Stub(self.b_sorted, "sorted")
         b["reversed"] = Stub(lambda ctx, it: list(reversed(self.interp.iterate(it, ctx))), "reversed")
         b["hasattr"] = Stub(lambda ctx, o, n: self.interp.has_attr(o, n, ctx), "hasattr")
@@ -148,6 +148,8 @@ class StubsBase:
     def b_len(self, ctx, v):
         if isinstance(v, NATIVE_CONTAINERS):
             return len(v)
+        if type(v).__name__ == "SSeq":
+            return v.n
         if isinstance(v, SArr):
             if v.ndim == 0:
                 raise PyExc("TypeError", "len() of unsized object")
@@ -187,7 +189,27 @@ class StubsBase:
     def type_hook(self, v, ctx):
         return None
 
+    def b_enumerate(self, ctx, it, start=0):
+        sq = self.iterate_sym(it, ctx)
+        if sq is not None:
+            from .values import SSeq
+            return SSeq(sq.n, lambda i: (V.add(i, start), sq.item(i)))
+        return [(i + start, x) for i, x in enumerate(self.interp.iterate(it, ctx))]
+
+    def iterate_sym(self, v, ctx):
+        """SSeq for iterables of symbolic length, else None."""
+        from .values import SSeq
+        return v if isinstance(v, SSeq) else None
+
     def b_zip(self, ctx, *its):
+        sqs = [self.iterate_sym(i, ctx) for i in its]
+        if its and all(q is not None for q in sqs):
+            from .values import SSeq
+            n = sqs[0].n
+            for q in sqs[1:]:
+                if not ctx.is_valid(V.eq(q.n, n)):
+                    raise Unsupported("zip of symbolic-length sequences of different lengths")
+            return SSeq(n, lambda i: tuple(q.item(i) for q in sqs))
         lists = [self.interp.iterate(i, ctx) for i in its]
         return list(zip(*lists))
 
@@ -205,6 +227,14 @@ class StubsBase:
 
     def _minmax(self, ctx, args, is_min):
         if len(args) == 1:
+            sq = self.iterate_sym(args[0], ctx)
+            if sq is not None:
+                if not ctx.branch(V.lt(0, sq.n), "min/max of a non-empty symbolic sequence"):
+                    raise PyExc("ValueError", "min()/max() of empty sequence")
+                probe = sq.item(ctx.fresh("probe", "int"))
+                if not V.is_num(probe):
+                    raise Unsupported("min/max over a symbolic-length sequence of non-numbers")
+                return ctx.fold_extreme("min" if is_min else "max", sq.n, sq.item, tag="builtin")
             args = self.interp.iterate(args[0], ctx)
         if not args:
             raise PyExc("ValueError", "min()/max() of empty sequence")
